@@ -3,6 +3,7 @@ package props
 import (
 	"bytes"
 	"fmt"
+	"time"
 
 	"verif/sim/refimpl"
 	"verif/sim/simrt"
@@ -21,7 +22,7 @@ func init() {
 		Assumptions: []string{
 			"metastore and KMS are simulated servers written from the documentation (insert-only table keyed by (id,created); KMS = AES-GCM under a fixed master key)",
 			"the AEAD is the repository's real AES-256-GCM behind a recording wrapper; protected memory is a pure-Go tracking factory",
-			"clock never runs backwards",
+			"each process's clock never runs backwards; processes may disagree by a constant offset (up to 100 days)",
 		},
 	})
 }
@@ -36,6 +37,11 @@ func runC01(t *simrt.Tape, o Opts) Outcome {
 		st.Oracle = map[string]int{}
 		if t.Choose(4, "memstore") == 1 {
 			w.UseMemoryMetastore()
+		}
+		// clock skew between hosts: a third of the histories give every process its own constant offset
+		// (nothing in this property depends on whose clock stamped a key)
+		if t.Choose(3, "clock-skew") == 1 {
+			w.ClockSkews = []time.Duration{0, time.Second, -time.Second, 90 * time.Second, -90 * time.Second, 2 * time.Hour, -2 * time.Hour, 25 * time.Hour, -25 * time.Hour, 100 * 24 * time.Hour, -100 * 24 * time.Hour}
 		}
 		h := &hist{w: w, t: t, parts: world.Partitions[:1+t.Choose(4, "nparts")], maxProc: 3}
 		h.gen = world.GenOpts{SmallCaps: t.Choose(2, "smallcaps") == 1, NoSimple: t.Choose(3, "nosimple") == 1, AllowTinyLFU: allowTinyLFU}
